@@ -34,6 +34,8 @@ CLAIMED["C10"] = dict(
          "parameter whatever bucket it hashes to; a single noise point is accepted whatever the (unused) frequency says. "
          "the look-up every vnacal_new_add_* call makes when the frequencies are already known (_vnacal_new_get_parameter: vector parameter, "
          "correlated parameter with a short sigma grid, correlated parameter over a short vector guess) obeys the same three clauses. "
+         "apply evaluates every error term at the requested frequency over the calibration's own grid with an interpolation order that follows from the "
+         "calibration alone - not from how many frequencies the request holds (error_terms.*: apply frame of C01 with a recording _vnacal_rfi contract). "
          "The segment search of _vnacal_rfi is closed by DFCC loop contracts for any number of iterations "
          "(bracketing postcondition, termination). Exactness at the knots is proved for the spline evaluator "
          "(any coefficients) and for _vnacal_rfi with up to 4 knots and any hint: bounded in the number of "
@@ -53,7 +55,7 @@ CLAIMED["C16"] = dict(
          "delete_parameter, release, teardown, get_parameter_value of a scalar) returns what the table model "
          "predicts, touches no other slot and re-establishes the invariant; hence for every call history. "
          "A handle solved before keeps exactly the grid and values of the LAST solve (solve_frame jobs of C11 re-run here). "
-         "add_calibration may be given the replaced calibration's own name string. "
+         "add_calibration may be given the replaced calibration's own name string; a handle resolves to ONE node of a calibration in progress, also after its hash grew (param_hash.grow_*). "
          "Bounded in table size (calibrations <= 8 slots + one growth step, parameters <= 8 slots with <= 4-5 live "
          "user handles).",
     note="bounded shapes; CORRELATED parameters and vnacal_new_t hash entries only as ghost external holds; "
@@ -134,7 +136,9 @@ CLAIMED["C12"] = dict(
          "memory-safety violation, documented failure value, errno ENOMEM, one SYSTEM error report, object well "
          "formed afterwards, the repeated call succeeds silently, the history ends in the fault-free state, and "
          "nothing remains allocated after the free functions.  The property-tree scripts include the non-idempotent forms "
-         "(list[+].x=v, list[0+].x=v): a call that fails after the element was added takes it out again, so the repeat does not add a second one.",
+         "(list[+].x=v, list[0+].x=v): a call that fails after the element was added takes it out again, so the repeat does not add a second one.  "
+         "vnacal_new_unknown: a standard that introduces an unknown parameter, failed at any allocation, leaves no parameter behind (count, list, anchor, hash) and the repeat registers it once; "
+         "vnadata_format: the default format installed by save / load fails cleanly.",
     note="quick tier scripts: vnadata (alloc, init, setters incl. both z0 mode switches, resize grow/shrink, free), "
          "vnacal_new (create, new_alloc, add_single_reflect_m, free; K=21), addcal (replace by name, grow the "
          "table), vnacal (create, make_scalar/vector/unknown, delete, free; K=11), vnacal_corr (the same plus make_correlated; K=15); thorough adds add_frequency "
@@ -188,7 +192,8 @@ CLAIMED["C01"] = dict(
          "kernel (T: mldivide, U/E12: mrdivide), the solution stored at the same frequency and cell, singular systems "
          "reported, empty requests read nothing.  "
          "With the assumed kernel contract (solve returns the solution) this gives S = (Ts - M Tx)^-1 (M Tm - Ti) resp. "
-         "S = (Um M + Ui)(Ux M + Us)^-1 in exact arithmetic for those types.  A calibration without frequencies refuses every request without reading its empty vector (cal0).",
+         "S = (Um M + Ui)(Ux M + Us)^-1 in exact arithmetic for those types.  A calibration without frequencies refuses every request without reading its empty vector (cal0).  The m and the a/b "
+         "form of through / line / mapped matrix hand the common funnel the same description (entry_points.*, job of C17).",
     note="NOT covered: equation term generation, solve, "
          "fill_e12 (divisions), rfi values between knots, accuracy.  The end-to-end numerical statement of C01 is "
          "out of reach of contract verification with CBMC; a numerical defect that keeps indices intact is invisible",
